@@ -93,7 +93,10 @@ def opPlay (args : List String) : String :=
         | r => r) (.ok (p0, absPos p0, []))
       match r with
       | .ok (p, fp, hist) =>
-        s!"m.res=ok m.dump={dumpPos p} m.fen={fenField (fenText p)} s.fen={fenField (Fide.toFen fp)} " ++
+        -- the spec's counters are unbounded; the engine's are `uint8`: the full FEN is judged inside their range, the board part always
+        let inRange := fp.fullmove ≤ 128 && fp.hmc ≤ 255
+        let board := "_".intercalate (((Fide.toFen fp).splitOn " ").take 4)
+        s!"m.res=ok m.dump={dumpPos p} m.fen={fenField (fenText p)} " ++ (if inRange then s!"s.fen={fenField (Fide.toFen fp)} " else "") ++ s!"s.board={board} " ++
         s!"m.hist={",".intercalate (hist.reverse.map hex64)} m.fullhash={hex64 (fullHash K p)}" ++ dom p0
       | .error => "m.res=error"
       | .panic => "m.res=panic"
